@@ -104,6 +104,7 @@ def pCall : P (Call Nat) := do
   | "u" => do let p ← pNat; let v ← pNat; pure (.update p v)
   | "d" => do let p ← pNat; pure (.paramData p)
   | "a" => do let i ← pNat; pure (.artifact i)
+  | "ub" => do let p ← pNat; pure (.updateRejected p)   -- update with a message that does not decode
   | _ => failure
 
 def pResp : P (Resp Nat) := do
@@ -167,12 +168,19 @@ def isUpdate : Call Nat → Bool
   | .update _ _ => true
   | _ => false
 
+/-- `ub p` on a node that IS a parameter: `ApplyMessage` returns the decode error before writing
+    anything, but `UpdateParameter` calls `incModelVersion` after it all the same (instance.go:440-442) -/
+def isRejectedOnParam (arr : Array (Node Nat)) : Call Nat → Bool
+  | .updateRejected p => (match arr[p]? with | some (.param _ _) => true | _ => false)
+  | _ => false
+
 /-- One response block per call: `<resp> pv <version of every parameter, node order> mv <model version>`.
     A call naming a node id `≥ N` (harness token 999999: a node id / producer name the instance does
     not have) is rejected — Go panics in `i.Node` (inside the lock) resp. in the producer lookup of
     `Artifact` (before the lock) — answer `err`, state unchanged.  `mv` = `Instance.ModelVersion()` =
-    number of `UpdateParameter` calls so far that were accepted (`incModelVersion` runs after
-    `ApplyMessage`; a call that panics in `i.Parameter` never reaches it). -/
+    number of `UpdateParameter` calls so far that reached `incModelVersion`: the accepted ones AND the
+    ones whose message did not decode (`ub` on a parameter: response `err`, parameter versions
+    unchanged, mv + 1); a call that panics in `i.Parameter` (no parameter / unknown id) never reaches it. -/
 def runSeq (obs : Bool) (N : Nat) : Array (Node Nat) → Nat → List (Call Nat) → List String
   | _, _, [] => []
   | arr, mv, c :: cs =>
@@ -183,7 +191,7 @@ def runSeq (obs : Bool) (N : Nat) : Array (Node Nat) → Nat → List (Call Nat)
     else
       let r := seqStep (N+1) (graphOf arr) c
       let arr' := table N r.1
-      let mv' := if isUpdate c && decide (r.2 = .ok) then mv + 1 else mv
+      let mv' := if (isUpdate c && decide (r.2 = .ok)) || isRejectedOnParam arr c then mv + 1 else mv
       blk (respStr r.2) arr' mv' :: runSeq obs N arr' mv' cs
 
 /-- `c13.seq` (obs = true: blocks with pv/mv) and `c13.http.seq` (obs = false: the same fold of
